@@ -211,6 +211,7 @@ func (e *ExecutionEngine) Execute(ctx context.Context, operation *graphql.Reques
 		// Normalize the operation again, this time just extracting additional variables from arguments.
 		result, err := operation.Normalize(e.config.schema,
 			astnormalization.WithExtractVariables(),
+			astnormalization.WithRemoveUnusedVariables(),
 		)
 		if err != nil {
 			return err
